@@ -5,6 +5,16 @@ From Coq Require Import List NArith Bool.
 From Quill Require Import Queue.BQDefs Backend.BEDefs Backend.BEExec Backend.BEInv Backend.BECount Backend.BEFlush Backend.OrdSim TieC06.
 Import ListNotations.
 Local Open Scope N_scope.
+From Quill Require TieBE ExpectedBE.
+
+(* T-src: the BackendWorker methods this property's part of M-BE re-states are, statement by statement, the ones the model
+   was written against and compared with (ExpectedBE.v; the whole loop is tied in Properties_C03.C03_tie_backend_loop) *)
+Theorem C06_tie_backend_methods :
+  QuillGen.SrcFacts.sk_be_process_transit_event = Quill.ExpectedBE.sk_be_process_transit_event /\
+  QuillGen.SrcFacts.sk_be_flush_and_run_active_sinks = Quill.ExpectedBE.sk_be_flush_and_run_active_sinks /\
+  QuillGen.SrcFacts.sk_be_process_lowest_timestamp_transit_event = Quill.ExpectedBE.sk_be_process_lowest_timestamp_transit_event.
+Proof. exact (conj TieBE.src_be_process_transit_event (conj TieBE.src_be_flush_and_run_active_sinks TieBE.src_be_process_lowest_timestamp_transit_event)). Qed.
+Print Assumptions C06_tie_backend_methods.
 
 (* T-src: the source pops the flush event from its transit buffer before it stores the caller's flag *)
 Theorem C06_tie_pop_before_flag : QuillGen.SrcFacts.be_pop_before_flag = true.
